@@ -2,7 +2,7 @@
    vm_compute for obligations on the tables regenerated from the live classes. *)
 From Coq Require Import String ZArith QArith Qround Qabs List Bool.
 From RV Require Import Base.PyNum Timing.Snapper Timing.Snap Timing.TimingMap Timing.Reseat Timing.Integrate
-  Formats.SMText Formats.SM Formats.SMSpec Generated.Tables Proofs.SMWitness Proofs.SMProofs.
+  Timing.Domain Formats.SMText Formats.SM Formats.SMSpec Generated.Tables Proofs.SMWitness Proofs.SMProofs Proofs.SMReadProofs.
 Import ListNotations.
 Open Scope Q_scope.
 
@@ -70,12 +70,30 @@ Theorem C02_sm_read_all_charts : forall (v : variant) (txt : text) (s : smset),
                  s_offset s = m_offset st.
 Proof. exact (sm_read_all_charts live_conf). Qed.
 
+(* ---- object times: with the file's tempo script in the domain of C10's closed form (head at beat 0, strictly increasing,
+   pairwise on the snap grid: the runner checks on every generated text that C02's 1/48-grid domain implies it) every hit,
+   mine, lift, fake and keysound returned by _read_notes sits at Integrate.time_of of the Snap of its row, every hold and
+   roll at the time of its head Snap with length = time of tail Snap - time of head Snap ---- *)
+Theorem C02_snapper_table_ok : table_ok (1 # 96) (k_tbl live_conf) = true.
+Proof. vm_compute. reflexivity. Qed.
+
+Theorem C02_read_times_integrate : forall (data : text) (init : Q) (bcss : list bcs) (n : notes_out),
+  read_notes live_conf data (Some init) (Some bcss) true = Some n ->
+  exists st, read_measures live_conf (st0 live_conf) 0 (split_on 44 data) = Some st /\
+    (let l := sort_by bcs_lt bcss in
+     domainb (k_tbl live_conf) l (queries st) = true ->
+     simple_at init l st KHit (o_hits n) /\ simple_at init l st KMine (o_mines n) /\ simple_at init l st KLift (o_lifts n)
+     /\ simple_at init l st KFake (o_fakes n) /\ simple_at init l st KKey (o_keys n)
+     /\ holds_at init l (n_holds st) (o_holds n) /\ holds_at init l (n_rolls st) (o_rolls n)).
+Proof. exact (read_notes_times live_conf C02_snapper_table_ok). Qed.
+
 (* ---- sm_read_denotes, PARTIAL.  Full statement (not proved for all texts):
        forall txt d, sm_denote txt = Some d -> c02_dom d = true -> dialect_ok txt d = true -> has_stops_tag d = true ->
          exists s, sm_read live_conf current txt = Some s /\ read_spec 0 d s = true.   (no #STOPS guard any more)
-   Proved: the row-placement core of it (the three slicing theorems and the pairing theorems above) and the chart
-   enumeration; missing: the token-level equivalence of the two parsers on the dialect and the step from the C10
-   theorem offsets_integrate to the per-object times.  The full statement is evaluated in Coq on every generated text
+   Proved: row placement (the three slicing theorems), pairing, chart enumeration, and — new — the lifting of C10's closed
+   form to object times (C02_read_times_integrate: every returned object sits at time_of of its row's Snap, lengths are
+   tail - head).  Missing: the token-level equivalence of the two parsers on the dialect (comment stripping / strip /
+   split interplay), completeness (every symbol yields an object), and domainb from the 1/48 grid (checked per run).  The full statement is evaluated in Coq on every generated text
    of every run (Corr/RunC02.v: model = implementation, and read_spec on the implementation's result). ---- *)
 Theorem C02_sm_read_denotes_partial : forall (rows : list text) (k b : Z) (j : nat),
   (0 < k)%Z -> (0 <= b)%Z -> Z.of_nat (length rows) = (4 * k)%Z -> (j < Z.to_nat k)%nat ->
